@@ -50,6 +50,7 @@ type Scenario struct {
 	Waiters   []int // observers to Wait() on
 	Slow      int
 	EarlyStop bool
+	Chain     bool // plain observable kinds: the observer is attached through TapOnSubscribe | Scan (a pass-through operator and an operator with unsynchronised state)
 }
 
 var errCause = []error{errors.New("cause0"), errors.New("cause1"), errors.New("cause2"), errors.New("cause3")}
@@ -126,6 +127,7 @@ func Gen(r *rand.Rand) Scenario {
 		sc.Waiters = append(sc.Waiters, r.Intn(sc.NObs))
 	}
 	sc.Slow = 1 + r.Intn(6)
+	sc.Chain = !isSubj && len(sc.PanicTd) == 0 && r.Intn(3) == 0
 	return sc
 }
 
@@ -239,6 +241,10 @@ func RunWithLog(lg *rec.Log, sc Scenario, seed int64) []rec.Ev {
 			ob = ro.NewEventuallySafeObservable(fn)
 		case "obs-unsafe":
 			ob = ro.NewUnsafeObservable(fn)
+		}
+		if sc.Chain {
+			acc := 0
+			ob = ro.Pipe2(ob, ro.TapOnSubscribe[int](func() {}), ro.Scan(func(a int, v int) int { acc += v; return v }, 0))
 		}
 		lg.Add(rec.Ev{E: "addB", I: 0, O: 0, P: 15})
 		s := ob.SubscribeWithContext(base, mkObserver(0))
